@@ -5,10 +5,10 @@ package main
 
 import (
 	"fmt"
-	"strings"
 	"go/token"
 	"go/types"
 	"math"
+	"strings"
 
 	"golang.org/x/tools/go/ssa"
 )
@@ -476,8 +476,10 @@ func (e *IntEnv) fromGuard(g Guard, v ssa.Value, depth int) Itv {
 }
 
 // fromValidator: the guard tests the outcome of a module-local validation helper that was handed v:
-//   if !validSize(v) { return err }            (boolean result)
-//   if err := check(v); err != nil { return }   (error result, nil on this edge)
+//
+//	if !validSize(v) { return err }            (boolean result)
+//	if err := check(v); err != nil { return }   (error result, nil on this edge)
+//
 // What the helper knows about the corresponding parameter at every return that can produce this outcome holds
 // for v here (the hull over those returns).
 func (e *IntEnv) fromValidator(g Guard, v ssa.Value, depth int) (Itv, bool) {
